@@ -21,10 +21,11 @@ TEXT = {
               'denotes its bytes, no escapes (string_literal_denotes); d+.d+ denotes the exact decimal rounded to float64, -0.0 being '
               'outside the model (float_literal_denotes); true/false/nil; literal_round_trip over the printer showLit. '
               '(whitespace) over the grammar Lexeme of the scanner\'s lexemes and the merge conditions fits (when two lexemes may '
-              'touch: lexStep_lexeme, fits_break), the scanner returns the tokens of the lexemes whatever whitespace (space, tab, LF, '
+              'touch; fits_exact: the scanner cuts the lexeme off if and only if fits holds; fits_break), the scanner returns the tokens of the lexemes whatever whitespace (space, tab, LF, '
               'VT, FF, CR) separates them (well_spaced_tokens), so two well-spaced texts of the same lexemes have the same parse as '
               'expression and as assign/for/cycle/when statement (same_lexemes_same_parse, whitespace_between_lexemes) and the same '
-              'compiled object/assign node (whitespace_compile); recorded counterexamples where a space does matter: inside a lexeme '
+              'compiled object/assign node (whitespace_compile), and a one-object template {{ ... }} written with any such whitespace, '
+              'newlines included, is tokenised, compiled and rendered (run) to the same result (object_whitespace_end_to_end); recorded counterexamples where a space does matter: inside a lexeme '
               '(-1 / - 1, == / = =) and the two scanner rules that glue parts together - `f : a` (a syntax error, `f: a` is not) and '
               '`a. b` (a syntax error, `a.b` and `a .b` are not). (pipeline through assign) {% assign t = E %}{{ t | g: b ... }} makes '
               'the same writer calls, fails alike and ends in the same state up to t as {{ E | g: b ... }} for fresh t whenever E '
